@@ -6,14 +6,19 @@
 package main
 
 import (
+	"bytes"
 	"encoding/json"
 	"fmt"
+	"io"
 	"log/slog"
+	"math"
 	"math/rand"
 	"regexp"
+	"runtime"
 	"strings"
 	"sync"
 	"sync/atomic"
+	"time"
 
 	"github.com/whoisnian/glb/logger"
 
@@ -39,6 +44,10 @@ type Case struct {
 	// Vias: records go through Log / level methods / LogAttrs / f-methods (see logrun.EmitVia)
 	// instead of Log only.
 	Vias bool `json:"vias,omitempty"`
+	// Special: "reentrant" - a value's LogValue() logs through a logger of the same family while the
+	// outer record is being formatted; "writepanic" - the destination's Write panics once (the caller
+	// recovers) and logging goes on afterwards. Single goroutine; G, PerG, Dwell unused.
+	Special string `json:"special,omitempty"`
 }
 
 func (cs Case) thr() slog.Level { return logrun.Levels[cs.Threshold] + slog.Level(cs.ThrOff) }
@@ -91,8 +100,10 @@ func plan(cs Case, g int) []planned {
 			pad += r.Intn(200) - 100
 		}
 		p.msg = fmt.Sprintf("r%d-%d", g, j) + strings.Repeat("x", pad)
-		switch r.Intn(4) {
+		switch r.Intn(5) {
 		case 0:
+		case 4: // values that go through encoding/json in the JSON handler (floats, structs, maps)
+			p.attrs = []attrgen.Node{leaf("f", &attrgen.Val{T: "float", U: math.Float64bits(float64(g*1000+j) + 0.25)}), leaf("st", &attrgen.Val{T: "struct", I: 1}), leaf("mp", &attrgen.Val{T: "map", I: int64(1 + j%2)})}
 		case 1:
 			p.attrs = []attrgen.Node{leaf("k", ival(int64(j)))}
 		case 2:
@@ -126,7 +137,116 @@ type stats struct {
 
 var idRe = regexp.MustCompile(`r(\d+)-(\d+)x*`)
 
+// relog is a LogValuer that logs through l while it is being resolved.
+type relog struct {
+	l   *logger.Logger
+	msg string
+}
+
+func (r relog) LogValue() slog.Value {
+	r.l.Info(r.msg, "inner", 1)
+	return slog.StringValue("resolved")
+}
+
+// panicOnce is a destination whose n-th Write panics.
+type panicOnce struct {
+	w   *recw.Writer
+	at  int
+	cnt int
+}
+
+func (p *panicOnce) Write(b []byte) (int, error) {
+	p.cnt++
+	if p.cnt == p.at {
+		panic("destination failed")
+	}
+	return p.w.Write(b)
+}
+
+// runSpecial: see Case.Special. The logging calls run on a goroutine of their own; if they do not
+// come back the goroutine dump decides: parked in a mutex below a glb handler = the handler blocks
+// itself (violation), anything else = inconclusive.
+func runSpecial(cs Case, st *stats) (key, expected, observed string) {
+	tag := fmt.Sprintf("%s:%s/thr%d", cs.Special, cs.Kind, cs.Threshold)
+	w := recw.New(64, 0)
+	var dest io.Writer = w
+	if cs.Special == "writepanic" {
+		dest = &panicOnce{w: w, at: 2}
+	}
+	root := logger.New(logrun.NewHandlerLevel(cs.Kind, dest, cs.thr(), cs.AddSource))
+	child := root.With("c", 1).WithGroup("g")
+	type res struct {
+		pv any
+	}
+	done := make(chan res, 1)
+	var wantLines int
+	go func() {
+		var r res
+		defer func() { done <- r }()
+		switch cs.Special {
+		case "reentrant":
+			// outer through the child, inner through the root and through a sibling of the child
+			child.Warn("outer1", "v", relog{root, "inner1"}, "after", 2)
+			root.Warn("outer2", slog.Group("grp", slog.Any("v", relog{child.With("s", 1), "inner2"})))
+		case "writepanic":
+			root.Warn("first")
+			func() {
+				defer func() { r.pv = recover() }()
+				child.Warn("second: its Write panics")
+			}()
+			root.Warn("third")
+			child.Warn("fourth")
+		}
+	}()
+	var r res
+	select {
+	case r = <-done:
+	case <-time.After(20 * time.Second):
+		buf := make([]byte, 1<<20)
+		dump := string(buf[:runtime.Stack(buf, true)])
+		if strings.Contains(dump, "sync.(*Mutex).Lock") && strings.Contains(dump, "glb/logger.") {
+			return "blocked:" + tag, "logging returns (a record logged while another is being formatted, or after a failed Write, is simply written)", "a logging call is parked in sync.(*Mutex).Lock inside a glb handler and nothing else runs"
+		}
+		return "inconclusive-special:" + tag, "", "logging calls did not return within 20 s, not parked in a handler mutex"
+	}
+	lv := func(l int) bool { return logrun.Levels[l] >= cs.thr() }
+	switch cs.Special {
+	case "reentrant":
+		if lv(2) {
+			wantLines += 2
+		}
+		if lv(1) && lv(2) { // the inner Info records are only logged when the outer record is formatted at all
+			wantLines += 2
+		}
+	case "writepanic":
+		if lv(2) {
+			wantLines = 3 // first, third, fourth: the second one's Write panicked
+			if r.pv == nil {
+				return "writepanic-swallowed:" + tag, "the panic of the destination's Write reaches the caller", "no panic"
+			}
+		}
+	}
+	st.records += 4
+	st.writes += int64(w.Calls())
+	if w.Calls() != wantLines {
+		var got []string
+		for _, pl := range w.Payloads() {
+			got = append(got, clip(string(pl)))
+		}
+		return "calls:" + tag, fmt.Sprintf("%d Write calls", wantLines), fmt.Sprintf("%d: %q", w.Calls(), got)
+	}
+	for i, pl := range w.Payloads() {
+		if _, err := logrun.StripTime(cs.Kind, pl); err != nil || len(pl) == 0 || pl[len(pl)-1] != '\n' || bytes.Count(pl, []byte{'\n'}) != 1 {
+			return "payload:" + tag, "every Write carries one complete line", fmt.Sprintf("write #%d: %q (%v)", i, clip(string(pl)), err)
+		}
+	}
+	return "", "", ""
+}
+
 func runCase(cs Case, st *stats) (key, expected, observed string) {
+	if cs.Special != "" {
+		return runSpecial(cs, st)
+	}
 	plans := make([][]planned, cs.G)
 	total := 0
 	for g := range plans {
@@ -310,6 +430,23 @@ func (mn mon) Run(sh drv.Shard, c *drv.Ctx) {
 	r := rand.New(rand.NewSource(sh.Seed*131071 + int64(a.Part)))
 	gs := []int{2, 4, 8, 32}
 	n := 0
+	if a.Part%100 < 10 { // plain shards: the two single-goroutine specials for every handler and threshold
+		for _, kind := range logrun.Kinds {
+			for _, sp := range []string{"reentrant", "writepanic"} {
+				for thr := 0; thr < 4; thr++ {
+					cs := Case{Kind: kind, Threshold: thr, Special: sp, AddSource: thr == 2}
+					k, e, o := runCase(cs, st)
+					c.Eval(1)
+					c.DistinctStr(fmt.Sprintf("%+v", cs))
+					if strings.HasPrefix(k, "inconclusive-special") {
+						c.Inconclusive(o)
+					} else if k != "" {
+						c.Violate(k, cs, e, o)
+					}
+				}
+			}
+		}
+	}
 	for run := 0; run < a.Runs; run++ {
 		for _, kind := range logrun.Kinds {
 			n++
